@@ -344,8 +344,9 @@ def read_map(ck, rule):
     # every float/int/None branch divides the code by the conversion factor
     fac = A.factor(prog)
     n_div = 0
-    for n in ast.walk(f.node):
-        if isinstance(n, ast.BinOp) and isinstance(n.op, (ast.Div, ast.FloorDiv)) and isinstance(n.right, ast.Call) and prog.resolve_call(f, n.right) == fac.qualname:
+    from ..common import walk_closure
+    for g_, n in walk_closure(prog, f):           # astype and the helpers extracted from it
+        if isinstance(n, ast.BinOp) and isinstance(n.op, (ast.Div, ast.FloorDiv)) and isinstance(n.right, ast.Call) and prog.resolve_call(g_, n.right) == fac.qualname:
             n_div += 1
             ck.check(not n.right.args and not n.right.keywords, rule, f, "astype divides the code by the non-raw conversion factor 2^n_frac", "factor call %s" % src(n.right), n)
     ck.check(n_div >= 4, rule, f, "astype converts codes with code / 2^n_frac on every dtype branch (%d sites)" % n_div, "only %d divisions by the conversion factor" % n_div, f.node)
@@ -473,6 +474,16 @@ def array_protocol_values(ck, rule):
     if f is None:
         ck.bad(rule, "objects.Fxp", "Fxp implements __array__", "__array__ missing")
         return
+    # pure delegation `return self.helper(*args, **kwargs)`: the exporter is the helper
+    from ..pinned import PINNED_FUNCS as _PF
+    for _ in range(3):
+        body = [s_ for s_ in f.node.body if not (isinstance(s_, ast.Expr) and isinstance(s_.value, ast.Constant))]
+        if len(body) == 1 and isinstance(body[0], ast.Return) and isinstance(body[0].value, ast.Call):
+            q = prog.resolve_call(f, body[0].value)
+            if q in prog.funcs and q not in _PF:
+                f = prog.funcs[q]
+                continue
+        break
     nv = 0
     for pf in fpaths(prog, f):
         if pf.end != "return" or pf.ret is None:
